@@ -37,6 +37,13 @@ CLAIMED = {
                   "with the code; an independent Fraction oracle covers scalar contexts, std, Environments.impute/scale and filter objects reused on other data.",
             note="Trusted: Coq kernel, extraction+driver, harness (tolerance 1e-9 between exact rationals and binary64). std (sqrt) and scalar contexts are oracle-only; the sparse variants have no cell-level theorem (correspondence only). NaN inputs are not generated.",
             technique="Coq proof over exact-rational model + extracted-model correspondence + Fraction oracle", design="§5 C11"),
+ "C18": dict(text="Coq theorems (C18/Props.v): moving_average's sliding/prefix accumulations equal the sums of the last min(span,i+1) / first i+1 entries (for numerators and weights), "
+                  "where_fin(l,p) keeps exactly the pairing groups with one evaluation per level (iff), its result is closed under its own levels, where_fin(n=k,l,p) yields equal-length complete groups, "
+                  "'min' truncates to the minimum. The extracted model is compared with Result.where_fin / moving_average on generated Results; a naive recomputation oracle covers table consistency, "
+                  "unchanged values, raw_learners averages and where/where_fin/where_best chains.",
+            note="Trusted: Coq kernel, extraction+driver, harness. The Table/View machinery, _remove and _grouped_ys are not modelled here (end-to-end comparison only); the 'exp' weighting has a model but no closed-form theorem; "
+                 "raw_learners and where_best are oracle-only; span=0 is outside the property as read (division by zero by construction).",
+            technique="Coq proof (pigeonhole on levels, prefix-sum algebra) + extracted-model correspondence + recomputation oracle", design="§5 C18"),
 }
 NA_REASON = "check not built yet in this revision (planned, see DESIGN.md §8); no claim is made"
 def main():
